@@ -629,3 +629,20 @@ def ancestors_(pm, n):
     while p is not None:
         yield p
         p = pm.get(id(p))
+
+
+@rule("CB", ["C01", "C02", "C03", "C04", "C09", "C10", "C11", "C17", "C18"], floor=1, doc="the witness corpus (documented uses of #[derive(Savefile)] "
+      "and #[savefile_abi_exportable] over the enumerated definitions) compiles against /repo's current macros, including rustc's "
+      "compile-time evaluation of the generated constants")
+def cb(facts, tier):
+    err = getattr(facts, "corpus_build_error", None)
+    if err:
+        import re as _re
+        m = _re.search(r"(error(\[E\d+\])?: .*?)(?:\n\n|$)", err, _re.S)
+        first = (m.group(1) if m else err[:600]).strip()
+        yield ob(["C01", "C02", "C03", "C04", "C09", "C10", "C11", "C17", "C18"], "CB", "corpus-builds", "violation", "",
+                 "the witness corpus no longer compiles against the macros of /repo (rustc rejects generated code for a documented "
+                 "definition): " + first[:900], rustc=err[-3000:])
+    else:
+        yield ob(["C01", "C02", "C03", "C04", "C09", "C10", "C11", "C17", "C18"], "CB", "corpus-builds", "pass", "",
+                 f"{len(facts.corpus_meta.get('types', []))} corpus definitions and {len(facts.corpus_meta.get('traits', [])) or 6} traits compile")
